@@ -176,7 +176,7 @@ def run(ctx):
              "distinct_schedules = distinct (event-sequence hash, number of run_n_steps calls) pairs actually executed",
         samples=[{"program": STRING_KERNELS["error-in-callee-after-prints"], "budgets": KS, "sequences": len(seqs(3 if ctx.quick else 5)), "delays": [0, 1, 2, 5]}],
         distinct_schedules=scheds,
-        programs=kinds,
+        program_kinds=kinds,
         programs_ending_in_runtime_error=err_programs,
         host_calls_in_reference_runs=hostcalls,
         budget_constants=KS,
